@@ -7,7 +7,7 @@ from common import Kernel, call_impl, coq_bool, coq_list, coq_nat, coq_Z, flv, g
 from props import C11 as _c11
 
 ID = "C03"
-N_CASES = {"quick": 200, "thorough": 1600, "search": 1200}
+N_CASES = {"quick": 120, "thorough": 1600, "search": 1200}
 SHARD = 24
 RULE = ("seeded histories of 0-8 appending calls over all nine methods (rotations as rational rotation matrices and "
         "as Rodrigues vectors, explicit matrices with and without their inverse, unit conversions through ounce, "
